@@ -19,21 +19,31 @@ type verifDetermProg struct {
 }
 
 var verifDetermProgs = []verifDetermProg{
-	{"object-display", "fn main() {\n  let o = new { a: 1, b: 2, c: 3 };\n  println(o);\n  println(o.to_string());\n  println(o == new { a: 1, b: 2, c: 3 });\n}\n", nil},
+	{"object-display", "fn main() {\n  let o = new { a: 1, b: 2, c: 3 };\n  println(o);\n  println([o, o]);\n  println(o == new { a: 1, b: 2, c: 3 });\n}\n", nil},
 	{"anyobject", "fn main() {\n  let o = new { x: 1, y: 2 } as { ? };\n  println(o.keys());\n  println(o.to_json());\n  println(o);\n}\n", nil},
 	{"warnings", "fn u1() {}\nfn u2() {}\nfn main() {\n  let x = 1;\n  let y = 2;\n  let z = 3;\n  println(1);\n}\n", nil},
 	{"modules", "import { f, g } from m1;\nimport h from m2;\nfn k() -> int { return 4; }\nfn main() {\n  println(f(), g(), h(), k());\n}\n",
 		map[string]string{"m1": "let v = 10;\npub fn f() -> int { return v + 1; }\npub fn g() -> int { return v + 2; }\nfn k() -> int { return 0; }\n", "m2": "let v = 20;\npub fn h() -> int { return v + 3; }\nfn k() -> int { return 0; }\n"}},
 	{"locals", "fn a(p: int, q: int) -> int { let r = p + q; let s = r * 2; return s - p; }\nfn b(p: int) -> int { let t = a(p, 1); return t + a(2, p); }\nfn main() {\n  let l = [b(1), b(2), b(3)];\n  for x in l { println(x); }\n}\n", nil},
-	{"singletons-impl", "import templ FooFeature from templates;\nimport trigger minute from triggers;\n$Device = { b: int, name: str, on: bool };\n$Other = { c: float, d: int };\nimpl FooFeature with { light } for $Device {\n  fn dim(self: $Device, percent: int) -> bool { self.b = percent; true }\n}\nimpl FooFeature with { temperature } for $Other {\n  fn set_temp(self: $Other, celsius: float) { self.c = celsius; }\n}\nevent fn cb(elapsed: int) { println(elapsed); }\nfn main() {\n  println(dim(3), $Device, $Other);\n  set_temp(1.5);\n  trigger cb at minute(2);\n  println($Other.c, $Device.b);\n}\n", nil},
+	{"singletons-impl", "import templ FooFeature from templates;\nimport trigger minute from triggers;\n$Device = { b: int, name: str, lit: bool };\n$Other = { c: float, d: int };\nimpl FooFeature with { light } for $Device {\n  fn dim(self: $Device, percent: int) -> bool { self.b = percent; true }\n}\nimpl FooFeature with { temperature } for $Other {\n  fn set_temp(self: $Other, celsius: float) { self.c = celsius; }\n}\nevent fn cb(elapsed: int) { println(elapsed); }\nfn main() {\n  println(dim(3), $Device, $Other);\n  set_temp(1.5);\n  trigger cb at minute(2);\n  println($Other.c, $Device.b);\n}\n", nil},
 	{"several-errors", "import nothere from m1;\nfn a(p: int, p: int) {}\nfn a() {}\nlet g = 1;\nlet g = 2;\ntype T = int;\ntype T = str;\nfn main() {\n  let x: str = 1;\n  let y: int = \"s\";\n  undefined1();\n  undefined2();\n  break;\n}\n",
 		map[string]string{"m1": "let v = 10;\npub fn f() -> int { return v; }\n"}},
 	{"module-chain", "import fa from a;\nimport fb from b;\nfn main() {\n  println(fa(), fb());\n}\n",
 		map[string]string{"a": "import inc from c;\npub fn fa() -> int { return inc(); }\n", "b": "import inc from c;\npub fn fb() -> int { return inc() * 10; }\npub fn fa() -> int { return 0; }\n", "c": "pub let cnt = 0;\npub fn inc() -> int { cnt += 1; return cnt; }\n"}},
+	{"same-named-functions", "import { e, f } from a;\nimport g from b;\nfn main() {\n  let h = f;\n  println(f(), g(), e(), h());\n}\n",
+		map[string]string{"a": "pub fn e() -> int { return 5; }\npub fn f() -> int { return 1; }\n", "b": "fn f() -> int { return 2; }\npub fn e() -> int { return 6; }\npub fn g() -> int { return f() * 10; }\n"}},
 	{"list-of-objects", "fn main() {\n  let l = [new { k: 1, v: \"a\" }, new { k: 2, v: \"b\" }];\n  for o in l { println(o.k, o.v); }\n  println(l);\n}\n", nil},
 }
 
-func verifObservable(code string, modules map[string]string) string {
+func verifObservable(code string, modules0 map[string]string) string {
+	// every module needs a main function of its own
+	var modules map[string]string
+	if modules0 != nil {
+		modules = map[string]string{}
+		for name, src := range modules0 {
+			modules[name] = src + "fn main() { }\n"
+		}
+	}
 	an := verifAnalyze(code, modules, nil, true)
 	var ds []string
 	for _, d := range an.diags {
@@ -66,6 +76,10 @@ func VerifHarness_Determinism() {
 		return
 	}
 	errors.VerifReached("ran")
+	if t.name != "several-errors" {
+		// the programs are meant to be accepted: a rejected one would make this check vacuous
+		errors.VerifAssert("determinism-corpus-program-is-accepted", !verifHasSuffix(first, "## rejected"))
+	}
 	errors.VerifStable("same-diagnostics-output-and-outcome-on-every-run", first)
 	errors.VerifStable("second-run-in-the-same-process", second)
 }
